@@ -37,8 +37,10 @@ def evaluate(mod, case):
     """returns (result, crash_failure_or_None).  An exception whose traceback passes through
     pyfvtool is a crash of the code under test on a generated (documented-domain) input -> Failure;
     any other exception is a harness error and propagates."""
+    from . import common
     from .common import Failure, HarnessError
     from .result import Result
+    common.LAYOUT = case.get('_layout', 'C') if isinstance(case, dict) else 'C'
     try:
         return mod.check(case)
     except HarnessError:
@@ -145,6 +147,13 @@ class Stats:
 
 # --------------------------------------------------------------------------- worker entry points
 
+def with_layout(strat):
+    """every generated case additionally draws the memory layout of the arrays handed to pyfvtool"""
+    from hypothesis import strategies as st
+    return st.builds(lambda c, l: dict(c, _layout=l) if isinstance(c, dict) else c, strat,
+                     st.sampled_from(['C', 'C', 'F', 'strided']))
+
+
 def _shard_generate(args):
     pid, tier, seed, shard, n = args
     try:
@@ -152,7 +161,7 @@ def _shard_generate(args):
         from hypothesis import HealthCheck, Phase, given, settings
         mod = _import_prop(pid)
         stats = Stats()
-        strat = mod.strategy(tier)
+        strat = with_layout(mod.strategy(tier))
 
         from .common import case_hash
         seen = set()
@@ -233,7 +242,7 @@ def _shrink(args):
                     best.update(case=case, size=s)
             return hit
         try:
-            hypothesis.find(mod.strategy(tier), cond,
+            hypothesis.find(with_layout(mod.strategy(tier)), cond,
                             settings=settings(max_examples=n, database=None, deadline=None,
                                               suppress_health_check=list(HealthCheck),
                                               phases=[Phase.generate, Phase.shrink]),
